@@ -64,7 +64,7 @@ Section Closed.
     /\ (forall i, In i d.(df_ifaces) -> has_type i (fun k => dkind_eqb k KInterface)).
 
   Definition root_closed (r : option str) : Prop :=
-    match r with Some n => has_type n any_kind | None => True end.
+    match r with Some n => has_type n (fun k => dkind_eqb k KObject) | None => True end.
 
   Definition closed : Prop :=
     (forall n d, lookup n s.(sc_types) = Some d -> def_closed d)
@@ -245,6 +245,7 @@ Lemma vsd_inv : forall sd s, validateSchemaDocument sd = Some s ->
     /\ (forall n, q' = Some n -> is_some (lookup n types) = true)
     /\ (forall n, m' = Some n -> is_some (lookup n types) = true)
     /\ (forall n, s' = Some n -> is_some (lookup n types) = true)
+    /\ (forall r n rd, In r [q'; m'; s'] -> r = Some n -> lookup n types = Some rd -> dkind_eqb rd.(df_kind) KObject = true)
     /\ s = mkSchema q' m' s' sdirs (final_types q' types) dirs (fst (relations types order)) (snd (relations types order)) desc.
 Proof.
   intros sd s H. unfold validateSchemaDocument in H.
@@ -280,6 +281,12 @@ Proof.
         let q' := infer q (b "Query") in
         let m' := infer m (b "Mutation") in
         let s' := infer s0 (b "Subscription") in
+        let root_is_object (r : option str) : bool :=
+            match r with
+            | Some n => match lookup n types with Some rd => dkind_eqb rd.(df_kind) KObject | None => true end
+            | None => true
+            end in
+        if negb (root_is_object q' && root_is_object m' && root_is_object s') then None else
         let types' :=
             match q' with
             | Some qn => match lookup qn types with Some qd => update qn (with_introspection qd) types | None => types end
@@ -319,15 +326,26 @@ Proof.
   pose proof (Hinfer q (b "Query") Hq) as Hq'. pose proof (Hinfer m (b "Mutation") Hm) as Hm'.
   pose proof (Hinfer s0 (b "Subscription") Hs) as Hs'.
   set (q' := infer q (b "Query")) in *. set (m' := infer m (b "Mutation")) in *. set (s' := infer s0 (b "Subscription")) in *.
+  set (rio := fun (r : option str) =>
+            match r with
+            | Some n => match lookup n types with Some rd => dkind_eqb rd.(df_kind) KObject | None => true end
+            | None => true
+            end) in *.
+  destruct (rio q' && rio m' && rio s') eqn:Hrio; [|discriminate]. cbn [negb] in H.
+  apply andb_true_iff in Hrio as [Hrio Hr3]. apply andb_true_iff in Hrio as [Hr1 Hr2].
+  assert (Hobj : forall r n rd, In r [q'; m'; s'] -> r = Some n -> lookup n types = Some rd -> dkind_eqb rd.(df_kind) KObject = true).
+  { intros r n rd Hin -> Hl. assert (Hr : rio (Some n) = true) by (destruct Hin as [<-|[<-|[<-|[]]]]; assumption).
+    unfold rio in Hr. rewrite Hl in Hr. exact Hr. }
   exists types0, types, order, dirs, q', m', s', sdirs, desc. rewrite Erel. cbn [fst snd].
   split; [first [reflexivity|exact Ead]|]. split; [first [reflexivity|exact Eme]|]. split; [first [reflexivity|exact Edi]|].
   split; [exact Hdefs|]. split; [exact Hdirs|]. split; [exact Hq'|]. split; [exact Hm'|]. split; [exact Hs'|].
+  split; [exact Hobj|].
   inversion H. reflexivity.
 Qed.
 
 Theorem loaded_closed : forall sd s, validateSchemaDocument sd = Some s -> closed s.
 Proof.
-  intros sd s H. destruct (vsd_inv sd s H) as (types0 & types & order & dirs & q' & m' & s' & sdirs & desc & Ead & Eme & Edi & Hdefs & Hdirs & Hq' & Hm' & Hs' & Hs).
+  intros sd s H. destruct (vsd_inv sd s H) as (types0 & types & order & dirs & q' & m' & s' & sdirs & desc & Ead & Eme & Edi & Hdefs & Hdirs & Hq' & Hm' & Hs' & Hobj & Hs).
   set (possible := fst (relations types order)) in *. set (implements := snd (relations types order)) in *.
   set (types' := final_types q' types) in *.
   assert (Htr : forall n p, has_type_in types n p -> exists td, lookup n types' = Some td /\ p td.(df_kind) = true).
@@ -368,13 +386,13 @@ Proof.
   - (* roots *)
     unfold root_closed. destruct q' as [qn|] eqn:Eq'; [|exact I].
     apply Htr. specialize (Hq' qn eq_refl). destruct (lookup qn types) as [td|] eqn:E; [|discriminate].
-    exists td. split; [exact E|reflexivity].
+    exists td. split; [exact E|]. eapply (Hobj (Some qn) qn td); [left; reflexivity|reflexivity|exact E].
   - unfold root_closed. destruct m' as [mn|] eqn:Em'; [|exact I].
     apply Htr. specialize (Hm' mn eq_refl). destruct (lookup mn types) as [td|] eqn:E; [|discriminate].
-    exists td. split; [exact E|reflexivity].
+    exists td. split; [exact E|]. eapply (Hobj (Some mn) mn td); [right; left; reflexivity|reflexivity|exact E].
   - unfold root_closed. destruct s' as [sn|] eqn:Es'; [|exact I].
     apply Htr. specialize (Hs' sn eq_refl). destruct (lookup sn types) as [td|] eqn:E; [|discriminate].
-    exists td. split; [exact E|reflexivity].
+    exists td. split; [exact E|]. eapply (Hobj (Some sn) sn td); [right; right; left; reflexivity|reflexivity|exact E].
 Qed.
 
 (* ---- what was defined is in the schema: the tables only grow ---- *)
@@ -449,7 +467,7 @@ Theorem loaded_contains : forall sd s, validateSchemaDocument sd = Some s ->
   /\ (forall qn, s.(sc_query) = Some qn ->
         exists qd, lookup qn s.(sc_types) = Some qd /\ forall f, In f introspection_fields -> In f qd.(df_fields)).
 Proof.
-  intros sd s H. destruct (vsd_inv sd s H) as (types0 & types & order & dirs & q' & m' & s' & sdirs & desc & Ead & Eme & Edi & Hdefs & Hdirs & Hq' & Hm' & Hs' & Hs).
+  intros sd s H. destruct (vsd_inv sd s H) as (types0 & types & order & dirs & q' & m' & s' & sdirs & desc & Ead & Eme & Edi & Hdefs & Hdirs & Hq' & Hm' & Hs' & Hobj & Hs).
   subst s. cbn [sc_types sc_dirs sc_query]. split; [|split].
   - intros d Hd. apply final_types_keys.
     apply (merge_exts_keys _ _ _ _ Eme). apply (proj2 (add_defs_keys _ _ _ Ead)). exact Hd.
